@@ -14,7 +14,7 @@ def jobs(tier):
     def add(module, func, tags, functions, budget=b, **extra):
         out.append(dict(id='e2.%s.%s' % (module.split('.')[-1], func), engine='E2', module=module, func=func, params={'engine': 'CrossHair', 'per_condition_timeout_s': budget},
                         tags=tags.split(','), functions=functions, budget_s=budget, weight=50, twin=False, **extra))
-    for f in ('rt_str', 'rt_str_file', 'rt_bytes', 'rt_int', 'rt_stream', 'rt_float', 'rt_float_special', 'rt_misc'):
+    for f in ('rt_graph', 'rt_str', 'rt_str_file', 'rt_bytes', 'rt_int', 'rt_stream', 'rt_float', 'rt_float_special', 'rt_misc'):
         add('obligations.ch.disk_rt', f, 'C01,C08' if f in ('rt_str', 'rt_str_file', 'rt_bytes', 'rt_stream') else 'C01', C01_F)
     add('obligations.ch.disk_rt', 'rt_json', 'C01,C02', C01_F + ['core.JSONDisk.put', 'core.JSONDisk.get', 'core.JSONDisk.store', 'core.JSONDisk.fetch'])
     add('obligations.ch.disk_rt', 'json_keys_distinct', 'C02', ['core.JSONDisk.put'])
@@ -26,7 +26,7 @@ def jobs(tier):
     for f in ('shape_2_0__2_0', 'shape_1_0__2_0', 'shape_3_0__1_1', 'shape_3_0__1_1_str', 'shape_1_1__1_1', 'shape_0_2__0_2_order',
               'shape_typed_int_float', 'shape_ignore', 'base_distinct'):
         add('obligations.ch.memo', f, 'C16', C16_F)
-    for f in ('fmt_put_int', 'fmt_put_str', 'fmt_put_bytes', 'fmt_put_other', 'fmt_store_str', 'fmt_store_bytes', 'fmt_store_int', 'fmt_read_baseline_text', 'fmt_constants'):
+    for f in ('fmt_put_int', 'fmt_put_str', 'fmt_put_bytes', 'fmt_put_other', 'fmt_store_str', 'fmt_store_bytes', 'fmt_store_int', 'fmt_read_baseline_text', 'fmt_constants', 'fmt_json'):
         add('obligations.ch.fmt', f, 'C18', ['core.Disk.put', 'core.Disk.get', 'core.Disk.hash', 'core.Disk.store', 'core.Disk.fetch', 'core.Disk.filename'])
     add('obligations.ch.prefix', 'isolation', 'C10', C10_F, budget=max(b, 200))
     add('obligations.ch.prefix', 'own_keys_in_range', 'C10', C10_F, budget=max(b, 200))
